@@ -4,6 +4,9 @@ import (
 	"encoding/json"
 	"fmt"
 	"net"
+	"os"
+	"os/exec"
+	"path/filepath"
 	"strings"
 
 	"github.com/brutella/hc/accessory"
@@ -232,5 +235,73 @@ func c09ReentrantModel(c *Ctx) {
 			continue
 		}
 		c.Count(fmt.Sprint(id, t, vals[0]), len(cbs) >= 2, "stream:reentrant-model", fmt.Sprintf("reentrant-depth:%d", len(cbs)))
+	}
+}
+
+// c09OtherPlatforms: what a controller writes is what the application reads ON EVERY PLATFORM the library is built for.
+// cmd/convprobe (every signed-integer characteristic of the catalog × negative, fractional and out-of-range numbers as a
+// controller sends them, plus application-side strings and ints) is built and run for the host, for GOARCH=386 and for
+// js/wasm under node — platforms whose float→integer conversions differ where the language leaves them to the
+// implementation (arm64, the usual deployment, converts like wasm: a negative float64 → uint64 saturates to 0).
+func c09OtherPlatforms(c *Ctx) {
+	id := "other-platforms#0"
+	if c.Skip(id) {
+		return
+	}
+	goroot, _ := exec.Command("go", "env", "GOROOT").Output()
+	wasmExec := filepath.Join(strings.TrimSpace(string(goroot)), "misc", "wasm", "go_js_wasm_exec")
+	if _, err := os.Stat(wasmExec); err != nil {
+		wasmExec = filepath.Join(strings.TrimSpace(string(goroot)), "lib", "wasm", "go_js_wasm_exec")
+	}
+	run := func(env []string, args ...string) (string, error) {
+		cmd := exec.Command("go", append([]string{"run"}, args...)...)
+		cmd.Dir = filepath.Join(c.VerifDir, "harness")
+		cmd.Env = append(append(os.Environ(), "GOFLAGS=-mod=mod", "GOPROXY=off", "GOSUMDB=off", "GOTOOLCHAIN=local", "CGO_ENABLED=0"), env...)
+		out, err := cmd.CombinedOutput()
+		return string(out), err
+	}
+	host, err := run(nil, "./cmd/convprobe")
+	if err != nil {
+		c.Mismatch("other-platforms", id, "cmd/convprobe on the host", "runs", trunc(host, 300))
+		return
+	}
+	platforms := [][]string{{"386", "GOARCH=386"}}
+	if _, err := exec.LookPath("node"); err == nil {
+		platforms = append(platforms, []string{"js/wasm", "GOOS=js", "GOARCH=wasm"})
+	}
+	hl := strings.Split(strings.TrimSpace(host), "\n")
+	// on the host: an in-range whole number written by a controller is stored as it is
+	for _, l := range hl {
+		var name, in, out string
+		if n, _ := fmt.Sscanf(l, "%s %s -> %s", &name, &in, &out); n == 3 && strings.HasPrefix(in, "float64(") {
+			v := strings.TrimSuffix(strings.TrimPrefix(in, "float64("), ")")
+			if name != "NewBrightness" && !strings.Contains(v, ".") && v != "-91" && out != "int("+v+")" {
+				c.Violate("a whole number inside the range, written by a controller, is not what the application reads", id, map[string]string{"platform": "host", "line": l}, "int("+v+")", out)
+			}
+		}
+	}
+	for _, p := range platforms {
+		args := []string{"./cmd/convprobe"}
+		if p[0] == "js/wasm" {
+			args = []string{"-exec", wasmExec, "./cmd/convprobe"}
+		}
+		out, err := run(p[1:], args...)
+		if err != nil {
+			c.Mismatch("other-platforms", id, "cmd/convprobe built for "+p[0], "builds and runs", trunc(out, 300))
+			continue
+		}
+		ol := strings.Split(strings.TrimSpace(out), "\n")
+		for k := range hl {
+			if k >= len(ol) || ol[k] != hl[k] {
+				got := "(missing)"
+				if k < len(ol) {
+					got = ol[k]
+				}
+				c.Violate("what the application reads after a write depends on the platform the library is built for", id,
+					map[string]string{"platform": p[0], "reproduce": strings.Join(p[1:], " ") + " go run ./cmd/convprobe (js/wasm: -exec go_js_wasm_exec, under node)"}, hl[k]+" (host)", got+" ("+p[0]+")")
+				break
+			}
+		}
+		c.Count("other-platforms:"+p[0], true, "stream:other-platforms", "other-platforms:"+p[0])
 	}
 }
